@@ -1287,8 +1287,9 @@ fn sweep_part(ctx: &mut Ctx) {
           ("simpson128", Integrator::Simpson { divs: 128 }, false, false),
           ("simpson400", Integrator::Simpson { divs: 400 }, true, false),
           ("simpson16", Integrator::Simpson { divs: 16 }, false, true),
-          ("gauss-legendre20", Integrator::GaussLegendre { degree: 20 }, false, true),
-          ("adaptive-simpson-tight", Integrator::AdaptiveSimpson { tolerance: 1e-9, max_depth: 12 }, false, false),
+          ("gauss-legendre20", Integrator::GaussLegendre { degree: 20 }, false, false),
+          ("gauss-legendre11", Integrator::GaussLegendre { degree: 11 }, false, true),
+          ("adaptive-simpson-tight", Integrator::AdaptiveSimpson { tolerance: 1e-8, max_depth: 9 }, false, false),
           ("clenshaw-curtis-tight", Integrator::ClenshawCurtis { tolerance: 1e-9 }, false, false),
         ]);
       }
